@@ -388,6 +388,22 @@ pub fn replay_file(path: &str) -> Result<Option<Violation>, String> {
     let v: Value = serde_json::from_str(&text).map_err(|e| e.to_string())?;
     let prop = v["property"].as_str().unwrap_or("");
     let engine = v["engine"].as_str().unwrap_or("e1");
+    if let Some(cs) = v["cases"].as_array() {
+        // a worker's journaled tail: the cases in order, on this one thread (crash attribution
+        // for damage that only shows in a later case)
+        // every case is executed (a crash further on is what the caller looks for); the first
+        // in-process violation is reported at the end together with its index
+        let mut first = None;
+        for (i, c) in cs.iter().enumerate() {
+            if let Some(x) = crate::registry::replay(prop, engine, c)? {
+                if first.is_none() {
+                    println!("TAIL-INDEX {}", i);
+                    first = Some(x);
+                }
+            }
+        }
+        return Ok(first);
+    }
     crate::registry::replay(prop, engine, &v["case"])
 }
 
